@@ -162,6 +162,14 @@ fn scale_allows_big(scale: u32) -> bool {
 }
 
 const PIECES: &[&str] = &["\n", "\r", "\r\n", "a", "bc", "é", "→", "😀", "\u{feff}", " ", ""];
+/// Characters that are NOT line breaks but look like one to a sloppy scanner: neighbours of LF
+/// (0x0A) and CR (0x0D) in value, bytes that differ from them in one bit, other "newline-ish"
+/// code points (a universal-newlines implementation must not split on them), and multi-byte
+/// characters whose UTF-8 encoding contains 0x8A / 0x8D / 0x85.
+pub const LOOKALIKES: &[&str] = &[
+    "\x0b", "\x0c", "\x0e", "\t", "\x08", "\x1c", "\x1d", "\x1e", "\x1f", "\x7f", "\0", "\u{85}", "\u{2028}", "\u{2029}",
+    "Ċ", "č", "*", "-", "J", "M", "j", "m", "\x1a", "\x0f", "ʊ", "＊",
+];
 pub const SMALL_ALPHABET: &[&str] = &["\n", "\r", "a", "é", "😀", "\u{feff}"];
 
 pub fn generate(seed: u64, config: u64, scale_arg: u32) -> Case {
@@ -198,8 +206,14 @@ pub fn generate(seed: u64, config: u64, scale_arg: u32) -> Case {
         if r.chance(15, 100) {
             text.push('\u{feff}');
         }
+        // a fraction of the runs mixes in characters that merely resemble line breaks
+        let lookalikes = r.chance(1, 6);
         for _ in 0..n {
-            text.push_str(PIECES[r.weighted(&w)]);
+            if lookalikes && r.chance(1, 3) {
+                text.push_str(*r.pick::<&str>(LOOKALIKES));
+            } else {
+                text.push_str(PIECES[r.weighted(&w)]);
+            }
         }
     }
     let len = text.len() as u64;
